@@ -252,6 +252,14 @@ func stringsIntrinsic(name string, fn *ssa.Function) intrinsicFn {
 		return func(x *Exec, _ *ssa.Function, a []Value) Value {
 			return x.strEq(&StrV{B: x.bytesOf(a[0])}, &StrV{B: x.bytesOf(a[1])})
 		}
+	case "strings.Compare", "internal/bytealg.abigen_runtime_cmpstring", "cmp.Compare[string]", "bytes.Compare":
+		// three-way comparison as ite over the byte-array encoding
+		return func(x *Exec, _ *ssa.Function, a []Value) Value {
+			p, q := x.bytesOf(a[0]), x.bytesOf(a[1])
+			lt := x.strLess(p, q, false)
+			gt := x.strLess(q, p, false)
+			return tIte(lt, mkInt(-1), tIte(gt, mkInt(1), mkInt(0)))
+		}
 	case "strings.EqualFold":
 		return func(x *Exec, _ *ssa.Function, a []Value) Value {
 			p, q := x.bytesOf(a[0]), x.bytesOf(a[1])
